@@ -90,7 +90,7 @@ type World struct {
 	opTrace  []string
 	traceOps bool
 	userData any
-	mapIDs   map[any]int
+	keyIDs   []mapID
 	invFn    func() string
 }
 
@@ -563,4 +563,73 @@ func SetName(name string) {
 	if w := cur; w != nil && w.cur != nil {
 		w.cur.Name = name
 	}
+}
+
+// ---- deterministic map iteration (engine/mcgen rewrites `for k, v := range m` over maps) -----------------------
+
+type mapID struct {
+	k  any
+	id int
+}
+
+// Key registers a map key the first time rewritten code uses it to index a map, so that MapKeys can order keys that
+// have no natural order (pointers, interfaces) by first use — deterministic, because executions are.
+func Key[K comparable](k K) K {
+	w := cur
+	if w == nil {
+		return k
+	}
+	switch any(k).(type) {
+	case string, int, int32, int64, uint32, uint64, uint16, uint8, int16, int8, uint, uintptr:
+		return k
+	}
+	w.keyID(any(k))
+	return k
+}
+
+func (w *World) keyID(k any) int {
+	for i := range w.keyIDs {
+		if w.keyIDs[i].k == k {
+			return w.keyIDs[i].id
+		}
+	}
+	w.keyIDs = append(w.keyIDs, mapID{k, len(w.keyIDs)})
+	return len(w.keyIDs) - 1
+}
+
+// MapKeys returns the keys of m in a deterministic order: natural order for strings and integers, order of first use
+// (see Key) otherwise. Go's own iteration order is random, which would make replays diverge.
+func MapKeys[K comparable, V any](m map[K]V) []K {
+	keys := make([]K, 0, len(m))
+	for k := range m {
+		keys = append(keys, k)
+	}
+	w := cur
+	if w == nil || len(keys) < 2 {
+		return keys
+	}
+	less := func(a, b K) bool {
+		switch x := any(a).(type) {
+		case string:
+			return x < any(b).(string)
+		case int:
+			return x < any(b).(int)
+		case int64:
+			return x < any(b).(int64)
+		case uint32:
+			return x < any(b).(uint32)
+		case uint64:
+			return x < any(b).(uint64)
+		case int32:
+			return x < any(b).(int32)
+		}
+		return w.keyID(any(a)) < w.keyID(any(b))
+	}
+	// keys never seen by Key get ids now, in (random) iteration order; rewritten code registers keys on insertion
+	for i := 1; i < len(keys); i++ {
+		for j := i; j > 0 && less(keys[j], keys[j-1]); j-- {
+			keys[j], keys[j-1] = keys[j-1], keys[j]
+		}
+	}
+	return keys
 }
